@@ -112,8 +112,8 @@ func handleLRange(params internal.HandlerFuncParams) ([]byte, error) {
 	if end < 0 {
 		end = len(list) + end
 	}
-	// If end is greater than list length, set it to the last element of the list
-	if end > len(list) {
+	// If end is beyond the last element of the list, set it to the last element of the list
+	if end >= len(list) {
 		end = len(list) - 1
 	}
 
